@@ -151,6 +151,37 @@ pub fn corpus_projects(quick: bool, rng: &mut Rng) -> Vec<Project> {
             });
         }
     }
+    // ambiguity family: k entities share a name and one use has to choose among them; whatever the
+    // compiler answers (a diagnostic or a choice) must not depend on a hash seed
+    for k in 2..=5usize {
+        let names = ["Color", "Light", "Wine", "Paint", "Hue"];
+        let mut enums = String::new();
+        let mut enums_p = String::new();
+        let mut traits = String::new();
+        let mut structs = String::new();
+        for n in names.iter().take(k) {
+            writeln!(enums, "enum {} {{ Red, Only{} }}", n, n).unwrap();
+            writeln!(enums_p, "enum {} {{ Mk(int32), Other{} }}", n, n).unwrap();
+            writeln!(traits, "trait T{n} {{ fn m(Self) -> int32; }}\nimpl T{n} for int32 {{ fn m(self: int32) -> int32 {{ {v} }} }}", n = n, v = n.len()).unwrap();
+            writeln!(structs, "struct S{n} {{ f: int32 }}\nimpl S{n} {{ fn get(self: S{n}) -> int32 {{ self.f }} }}", n = n).unwrap();
+        }
+        let fam: Vec<(&str, String)> = vec![
+            ("bare-variant", format!("{}fn main() {{ let c = Red; let _ = c; () }}\n", enums)),
+            ("bare-variant-match", format!("{}fn f(c: Color) -> int32 {{ match c {{ Red => 1, _ => 0 }} }}\nfn main() {{ string_println(int32_to_string(f(Color::Red))) }}\n", enums)),
+            ("bare-ctor-payload", format!("{}fn main() {{ let c = Mk(1); let _ = c; () }}\n", enums_p)),
+            ("method-of-k-traits", format!("{}fn main() {{ string_println(int32_to_string(1.m())) }}\n", traits)),
+            ("field-of-k-structs", format!("{}fn main() {{ let g = |s| s.f; let _ = g; () }}\n", structs)),
+            ("method-of-k-inherent", format!("{}fn main() {{ let g = |s| s.get(); let _ = g; () }}\n", structs)),
+        ];
+        for (name, src) in fam {
+            v.push(Project {
+                id: format!("ambig-{}-{}", name, k),
+                kind: "ambiguity",
+                files: vec![("main.gom".to_string(), src)],
+                tags: vec![format!("k={}", k)],
+            });
+        }
+    }
     v
 }
 
@@ -315,7 +346,15 @@ pub fn gen_project(idx: usize, seed: u64) -> Project {
             let k = if is_def && !it.contains("\n\nimpl ") { 0 } else { rng.below(nf) };
             parts[k].push(it);
         }
-        let fnames: &[&str] = if p == "Main" { &["main.gom", "n.gom", "z.gom"] } else { &["a.gom", "b.gom", "lib.gom"] };
+        // some packages have files whose names differ only in case: the documented order is the
+        // byte order of the names, whatever order the directory yields them in
+        let fnames: &[&str] = if p == "Main" {
+            &["main.gom", "n.gom", "z.gom"]
+        } else if idx % 3 == 1 {
+            &["Ops.gom", "ops.gom", "oPs.gom"]
+        } else {
+            &["a.gom", "b.gom", "lib.gom"]
+        };
         for (k, part) in parts.iter().enumerate() {
             let mut s = format!("package {p}\n");
             let mut my = imps.clone();
